@@ -68,7 +68,7 @@ def extract(text: str, pos=None, options: dict=None) -> tuple:
 
     if scanner.pos != end and not braces:
         # Trim whitespace
-        while is_space(scanner.cur()):
+        while scanner.pos < end and is_space(scanner.cur()):
             scanner.pos += 1
 
         return (scanner.pos, end)
